@@ -110,12 +110,19 @@ def compile_gen(name, timeout=900, deps=()):
         return rc, out
 
 
+def compile_many(names, timeout=900, deps=(), workers=8):
+    """compile several Gen files in parallel; -> list of (rc, out) in order"""
+    from concurrent.futures import ThreadPoolExecutor
+    with ThreadPoolExecutor(max_workers=workers) as ex:
+        return list(ex.map(lambda n: compile_gen(n, timeout, deps), names))
+
+
 def coq_eval_lists(out):
     """Extract the printed values of `Eval vm_compute` commands: list of strings (one per
     '= ... : type' block), whitespace-normalised."""
     res = []
     for m in re.finditer(r'^\s*= (.*?)\n\s*: ', out, re.S | re.M):
-        res.append(' '.join(m.group(1).split()))
+        res.append(re.sub(r'%(positive|N|Z|nat)\b', '', ' '.join(m.group(1).split())))
     return res
 
 
@@ -133,7 +140,7 @@ def print_assumptions(out):
     """Summarise `Print Assumptions` output blocks found in coqc output."""
     res = []
     for m in re.finditer(r'(Closed under the global context|Axioms:\n(?:.+\n?)+)', out):
-        res.append(' '.join(m.group(1).split()))
+        res.append(re.sub(r'%(positive|N|Z|nat)\b', '', ' '.join(m.group(1).split())))
     return res
 
 
@@ -163,6 +170,8 @@ class Result:
                         evaluations=0, distinct_nontrivial=0, rule='', samples=[])
         self.assumptions = []
         self.notes = {}
+        for f in REPLAYS.glob(f'{prop}_{tier}_{seed}_*.json'):
+            f.unlink()
 
     def obligation(self, name, ok):
         self.cov['obligations'] += 1
